@@ -67,6 +67,7 @@ class JobContext(object):
         self.I = None
         self.sym = None
         self.pending = []
+        self.scratch = []
 
     # -- known findings ------------------------------------------------------------------------
     def known_for(self, label):
@@ -406,6 +407,9 @@ def run_job(spec):
             I.explore(lambda: I.call(fn, [sym], dict(params)), on_path=ctx.on_path, max_paths=job.get("max_paths"))
         except StopExploration:
             stopped = True
+        import shutil
+        for d in ctx.scratch:
+            shutil.rmtree(d, True)
         res = ctx.result()
         res["stopped_early"] = stopped
         res["wall_s"] = round(time.time() - t0, 2)
